@@ -9,6 +9,7 @@ package main
 import (
 	"fmt"
 	"runtime"
+	"strconv"
 	"strings"
 	"sync"
 	"sync/atomic"
@@ -149,6 +150,13 @@ func (f *freeRun) install(vm *goja.Runtime) {
 	})
 	vm.Set("__early", func(what string) {
 		f.fail("free-timer-fired-early", "the callback of "+what+" ran within seconds of being set (or the call that set it threw)")
+	})
+	t00 := time.Now()
+	vm.Set("__now", func() float64 { return float64(time.Since(t00).Nanoseconds()) / 1e6 })
+	vm.Set("__elapsed", func(what string, want, got float64) {
+		if got < want {
+			f.fail("free-timer-fired-early", fmt.Sprintf("setTimeout with delay %s ran %.3f ms after it was set (delay %.3f ms)", what, got, want))
+		}
 	})
 	vm.Set("__busy", func(us int) {
 		t := time.Now()
@@ -505,7 +513,9 @@ func freeCount(r *lib.Rand) *freeRun {
 	selfClr := r.Chance(50)
 	// delays from an hour up to anything a script can write: none of these timers may fire during the scenario
 	far := []string{"3600000", "3600000", "1e13", "2**53", "9223372036854", "9223372036855", "18446744073710", "18446744073711", "27670116110564", "36893488147420",
-		"55340232221129", "1.8446744073709552e19", "1e300", "Infinity", "4294967296", "2**32*1000", "2**63", "9007199254740993"}
+		"55340232221129", "1.8446744073709552e19", "1e300", "Infinity", "4294967296", "2**32*1000", "2**63", "9007199254740993",
+		// the same as strings, and as objects that convert to them (a delay is converted like any other number)
+		`"1e30"`, `"9223372036854775808"`, `"1e400"`, `"  1e19 "`, `"Infinity"`, `"3600000"`, `"\u00a03600000"`, `"3600000\ufeff"`, `({valueOf: function(){ return "1e30" }})`, `new Number(1e15)`, `"3.6e6"`, `"0x36EE80"`}
 	// calls that throw (or are refused) set nothing: the count must not see them
 	duds := []string{
 		"try { setTimeout(function(){ __early('dud') }, {valueOf: function(){ throw new Error('v') }}) } catch (e) {}",
@@ -516,7 +526,10 @@ func freeCount(r *lib.Rand) *freeRun {
 		"try { setTimeout(function(){ __early('dud') }, 10n) } catch (e) {}",
 	}
 	nd := r.Intn(3)
+	// fractional and string delays of a few milliseconds: the callback must not run before that much time has passed
+	fracs := []string{"1.9", "0.99", "2.5", `"1.9"`, "2.0001", `"\u00a03"`, `" 3 "`, "3.999"}
 	var usedFar, usedDuds []string
+	fracUsed := r.Chance(60)
 	f.loop.RunOnLoop(func(vm *goja.Runtime) {
 		for i := 0; i < nd; i++ {
 			d := r.Pick(duds)
@@ -528,12 +541,17 @@ func freeCount(r *lib.Rand) *freeRun {
 		for i := 0; i < j; i++ {
 			d := r.Pick(far)
 			usedFar = append(usedFar, d)
-			vm.RunString("setTimeout(function(){ __early('setTimeout " + d + "') }, " + d + ")")
+			vm.RunString("setTimeout(function(){ __early(" + strconv.Quote("setTimeout "+d) + ") }, " + d + ")")
+		}
+		if fracUsed {
+			d := r.Pick(fracs)
+			usedFar = append(usedFar, d)
+			vm.RunString("(function(){ var t0 = __now(), d = " + d + "; setTimeout(function(){ __elapsed(" + strconv.Quote(d) + ", Number(d), __now() - t0) }, d) })()")
 		}
 		for i := 0; i < iv; i++ {
 			d := r.Pick(far)
 			usedFar = append(usedFar, d)
-			vm.RunString("setInterval(function(){ __early('setInterval " + d + "') }, " + d + ")")
+			vm.RunString("setInterval(function(){ __early(" + strconv.Quote("setInterval "+d) + ") }, " + d + ")")
 		}
 		for i := 0; i < im; i++ {
 			// an immediate that clears itself while running, and once more afterwards: completed work is not counted again
@@ -546,6 +564,12 @@ func freeCount(r *lib.Rand) *freeRun {
 	})
 	if !f.sync("js timers set") || !f.sync("immediates ran") || !f.sync("second-level immediates ran") {
 		return f
+	}
+	if fracUsed { // the short timeout (at most 4 ms) has completed before the count is taken
+		time.Sleep(12 * time.Millisecond)
+		if !f.sync("short timeout ran") {
+			return f
+		}
 	}
 	want := k - c + j + iv
 	f.params = fmt.Sprintf("go-timeouts=%d cleared=%d js-timeouts=%d js-intervals=%d immediates=%d self-clearing=%v delays=%v calls-that-set-nothing=%q", k, c, j, iv, im, selfClr, usedFar, usedDuds)
